@@ -72,6 +72,9 @@ PROPS = {
 PROPS['C17'] = dict(title='Event logs record exactly the creations and destructions since the last clear',
                     coq=['props/C17.vo'], tags=[17],
                     streams=[('w1', 'S12', 50, 60), ('w2', 'S12', 25, 60)], configs=['dbg-ev', 'rel'], need=['events', 'create', 'destroy'])
+PROPS['C18'] = dict(title='Generated code is unsafe-free and unsound client programs do not compile',
+                    coq=['props/C18.vo'], tags=[18], c18=dict(cases=60),
+                    streams=[], configs=['dbg'], need=[])
 PROPS['C19'] = dict(title='Crate features and build profiles change nothing but what they document',
                     coq=['props/C19.vo'], tags=[1, 2, 3, 4, 5, 6, 7, 8, 9, 10, 12, 13, 14, 17, 19],
                     streams=[('w1', 'S1', 12, 50), ('w1', 'S2', 10, 50), ('w1', 'S7', 12, 50), ('w1', 'S12', 10, 50), ('w1', 'S9', 8, 50), ('w3', 'S2', 10, 40), ('w3', 'S1', 8, 40)],
